@@ -186,6 +186,9 @@ fn parse_file_format(lines: &mut Lines<'_>) -> Result<FileFormat, ParseError> {
 }
 
 fn insert(string_map: &mut StringMap, id: &str, idx: Option<usize>) -> Result<(), ParseError> {
+    // BCF encodes an index into a string map as a typed integer, which is at most 32 bits.
+    const MAX_IDX: usize = i32::MAX as usize;
+
     if let Some(i) = idx {
         if let Some((j, entry)) = string_map.get_full(id) {
             let actual = (i, id.into());
@@ -194,8 +197,10 @@ fn insert(string_map: &mut StringMap, id: &str, idx: Option<usize>) -> Result<()
             if actual != expected {
                 return Err(ParseError::StringMapPositionMismatch(actual, expected));
             }
-        } else {
-            string_map.insert_at(i, id.into());
+        } else if i > MAX_IDX || string_map.insert_at(i, id.into()).is_err() {
+            let actual = (i, id.into());
+            let expected = (string_map.entries.len(), id.into());
+            return Err(ParseError::StringMapPositionMismatch(actual, expected));
         }
     } else {
         string_map.insert(id.into());
